@@ -263,7 +263,6 @@ func (c *Ctx) keyFromFiniteTable(v ssa.Value) bool {
 	return false
 }
 
-
 // incrementOf: e = phi + k1 + k2 + ... with constant ks; returns their sum.
 func incrementOf(e ssa.Value, phi *ssa.Phi, depth int) (int64, bool) {
 	if e == ssa.Value(phi) {
